@@ -115,6 +115,8 @@ FAULT SCRIPT (--script file, or POST /_emu/script): a JSON list of rules
     "rename-fail"   the final rename (dropbox move, yandex move, google patch) is not performed and
                     answers "status" (default 500) with a provider-shaped JSON error.  Default
                     endpoint filter: rename.
+    "async-fail"    (yandex move) the move is answered 202 with an operation link, the operation ends as
+                    "failed" and nothing is moved.  Default endpoint filter: rename.
     "delay:<ms>"    sleep before handling the request (also: "fault": "delay", "ms": N).  Any
                     other rule may additionally carry "delay_ms": N.
 
@@ -554,7 +556,7 @@ def flip_byte(data, offset=None):
 # ---------------------------------------------------------------------------------------------
 
 FAULT_KINDS = ("status", "text", "badjson", "nofield", "noheader", "reset-before", "reset-inside", "corrupt",
-               "rename-fail", "delay")
+               "rename-fail", "delay", "async-fail")
 
 
 class Rule:
@@ -579,7 +581,7 @@ class Rule:
         self.seq = match.get("seq")
         self.provider = match.get("provider")
         self.endpoint = match.get("endpoint")
-        if self.endpoint is None and kind == "rename-fail":
+        if self.endpoint is None and kind in ("rename-fail", "async-fail"):
             self.endpoint = "rename"
         if self.endpoint is None and kind == "corrupt":
             self.endpoint = "upload-data"
@@ -1409,6 +1411,10 @@ class Emulator:
                 return self.yandex_error(409, "DiskResourceAlreadyExistsError",
                                          "Ресурс \"%s\" уже существует." % dst, "Resource \"%s\" already exists." % dst)
             ns.remove_node(existing, existing_parent)
+        if req.fault is not None and req.fault.kind == "async-fail":
+            # the move is accepted as an asynchronous operation, which then fails: nothing is moved
+            req.note = "asynchronous move accepted, its operation ends as failed"
+            return self.ya_accepted(req, self.ya_operation_new("failed"))
         asynchronous = self.ya_is_async(node)
         ns.detach(node, parent)
         node["name"] = name
